@@ -125,6 +125,14 @@ def main(argv):
     n_pass_default = len([i for i in rep.instances if i["status"] == "pass" and not i["rule"].endswith("@uuid")])
     rep.floor(prop + ".instances", n_pass_default, MIN_INSTANCES.get(prop, 1), "passing rule instances of this check (anti-vacuity)")
     rep.context["fact_cache_hit"] = ctx.cache_hits
+    # what the loader renamed / reordered to the rules' reference vocabulary before any rule ran (empty on the reference tree)
+    norm = {}
+    for feat_, fx_ in ctx._facts.items():
+        d_ = {k_: v_ for k_, v_ in (("parameters", getattr(fx_, "renamed_params", {})), ("private_fields", getattr(fx_, "renamed_fields", {})),
+                                    ("field_order", getattr(fx_, "reordered_fields", {})), ("types", getattr(fx_, "renamed_adts", {}))) if v_}
+        if d_:
+            norm[feat_ or "default"] = d_
+    rep.context["names_normalised"] = norm
     if replay:
         try:
             want = json.load(open(replay))
